@@ -477,7 +477,84 @@ def rule_literal_skip(check):
         check.expect(not conds, R, R + "/template-always", hir.loc(n), "the template hook is built unconditionally once reached", "the template hook is built only under %s" % [hir.cond_str(c) for c in conds])
 
 
+def rule_predicates(check):
+    R = "PREDICATES"
+    check.rule(R, "the predicates the receiver table relies on mean what their names say: is_call_or_apply(name) <=> name is `call` or `apply`; member_prop_is_prototype(m) <=> m.prop is the identifier `prototype`; update_status records every status other than NotModified unless the rewrite is cancelled; cancel_visit sets Cancelled")
+    prog = check.prog
+    from ..prov import return_exprs
+
+    f = prog.fn("FunctionPrototypeTransform::is_call_or_apply")
+    vals = {}
+    for c in ("CALL_METHOD_NAME", "APPLY_METHOD_NAME", "PROTOTYPE"):
+        try:
+            vals[c] = prog.const_str("function_prototype_transform::" + c)
+        except AnchorMissing:
+            vals[c] = None
+    rets = [hir.peel(r) for r in return_exprs(f.body)]
+    ok = False
+    if len(rets) == 1 and rets[0].get("k") == "Binary" and rets[0]["op"] == "Or":
+        names = set()
+        for side in (rets[0]["l"], rets[0]["r"]):
+            side = hir.peel(side)
+            if side.get("k") == "Binary" and side["op"] == "Eq":
+                cs = [hir.def_path_of(x) for x in (hir.peel_transparent(side["l"]), hir.peel_transparent(side["r"])) if hir.def_path_of(x)]
+                lits = [hir.lit_value(x) for x in (side["l"], side["r"]) if hir.lit_value(x) is not None]
+                if cs:
+                    names.add(vals.get(cs[0].split("::")[-1]))
+                names |= set(lits)
+        ok = names == {"call", "apply"}
+    check.expect(ok, R, R + "/is_call_or_apply", hir.loc(f.rec), "is_call_or_apply <=> name in {call, apply}", "is_call_or_apply is not `name == \"call\" || name == \"apply\"`")
+    g = prog.fn("FunctionPrototypeTransform::member_prop_is_prototype")
+    rets = [hir.peel(r) for r in return_exprs(g.body)]
+    ok = False
+    if len(rets) == 1:
+        conj = T._conjuncts(rets[0])
+        kinds = []
+        for t in conj:
+            t = hir.peel(t)
+            if hir.is_call(t) and (hir.callee_name(t) or t.get("method")) == "is_ident" and T._place_ends(hir.call_args(t)[0], "prop"):
+                kinds.append("prop-is-ident")
+            elif t.get("k") == "Binary" and t["op"] == "Eq":
+                cs = [hir.def_path_of(x) for x in (hir.peel_transparent(t["l"]), hir.peel_transparent(t["r"])) if hir.def_path_of(x)]
+                sym = any(x.get("k") == "Field" and x["field"] == "sym" for x in (hir.peel_transparent(t["l"]), hir.peel_transparent(t["r"])))
+                if sym and cs and vals.get(cs[0].split("::")[-1]) == "prototype":
+                    kinds.append("sym==prototype")
+                else:
+                    kinds.append("?")
+            else:
+                kinds.append("?")
+        ok = sorted(kinds) == ["prop-is-ident", "sym==prototype"]
+    check.expect(ok, R, R + "/member_prop_is_prototype", hir.loc(g.rec), "member_prop_is_prototype <=> prop is the identifier `prototype`", "member_prop_is_prototype is not `prop.is_ident() && prop.sym == \"prototype\"`")
+    from .. import gate
+
+    us = prog.fn("OperationTransformVisitor::update_status")
+    assigns = [n for n in us.nodes() if n.get("k") == "Assign" and (hir.place(n["l"]) or "").endswith(".transform_status.status")]
+    ok = len(assigns) == 1
+    if ok:
+        a = assigns[0]
+        atoms = gate.atoms_at(us, a)
+        rhs = hir.local_of(a["r"])
+        from_param = bool(rhs) and us.bindings()[rhs[0]]["origin"][0] == "param"
+        not_nm = gate.has_eq_gate(atoms, "status", "Status::NotModified", False)
+        not_cancelled = gate.has_eq_gate(atoms, ".transform_status.status", "Status::Cancelled", False)
+        extra = [x for x in atoms if x[0] not in ("eq",)]
+        ok = from_param and not_nm and not_cancelled and not extra and len([x for x in atoms if x[0] == "eq"]) == 2
+    check.expect(ok, R, R + "/update_status", hir.loc(us.rec), "file status := result status whenever it is not NotModified (and not cancelled)", "update_status does not record every modified result: instrumented files can be reported (and handed back) as not modified")
+    cv = prog.fn("BlockTransformVisitor::cancel_visit")
+    sets = [n for n in cv.nodes() if n.get("k") == "Assign" and (hir.place(n["l"]) or "").endswith(".status") and (hir.peel(n["r"]).get("res", {}).get("ctor_path") or "").endswith("Status::Cancelled") and not cv.conds_at(n)]
+    check.expect(len(sets) == 1, R, R + "/cancel_visit", hir.loc(cv.rec), "cancel_visit sets Cancelled unconditionally", "cancel_visit does not set the status to Cancelled")
+    vc = prog.fn("BlockTransformVisitor::visit_is_cancelled")
+    rets = [hir.peel(r) for r in return_exprs(vc.body)]
+    ok = len(rets) == 1 and rets[0].get("k") == "Binary" and rets[0]["op"] == "Eq" and "Status::Cancelled" in hir.describe(rets[0]) and ".status" in (hir.place(rets[0]["l"]) or hir.place(rets[0]["r"]) or "")
+    check.expect(ok, R, R + "/visit_is_cancelled", hir.loc(vc.rec), "visit_is_cancelled <=> status == Cancelled", "visit_is_cancelled is not `status == Cancelled`")
+    tr = prog.fn("TransformResult::<T>::is_modified") if prog.find_fns("TransformResult::<T>::is_modified") else prog.fn("TransformResult::is_modified")
+    rets = [hir.peel(r) for r in return_exprs(tr.body)]
+    ok = len(rets) == 1 and rets[0].get("k") == "Binary" and rets[0]["op"] == "Eq" and "Status::Modified" in hir.describe(rets[0])
+    check.expect(ok, R, R + "/is_modified", hir.loc(tr.rec), "is_modified <=> status == Modified", "TransformResult::is_modified is not `status == Modified`")
+
+
 def run(check):
+    check.guarded("PREDICATES", rule_predicates)
     check.guarded("LITERAL-SKIP", rule_literal_skip)
     check.guarded("OPTCHAIN-SHAPE", rule_optchain_shape)
     check.rule("TRAV-COVER", "on every structural path of every visit_mut_* override of the instrumenting visitors, every child that can contain an expression is visited (visit_mut_with / visit_mut_children_with), unless the path matches a documented exclusion of the property statement")
